@@ -1,7 +1,7 @@
 let () =
   let argv = Array.to_list Sys.argv in
   let rec opts = function
-    | "--thr" :: v :: r -> D_static.thr := int_of_string v; opts r
+    | "--thr" :: v :: r -> D_static.thr := int_of_string v; D_dynamic.thr := int_of_string v; opts r
     | "--max-n" :: v :: r -> D_spec.max_n := int_of_string v; opts r
     | "--bound" :: r -> D_spec.with_bound := true; opts r
     | "--cli-max-n" :: v :: r -> D_cli.max_n := int_of_string v; opts r
@@ -22,4 +22,6 @@ let () =
   | _ :: "readers" :: path :: _ -> D_readers.run_readers path
   | _ :: "writers" :: path :: _ -> D_readers.run_writers path
   | _ :: ("satobj" | "dimacs" | "reply" | "pipe" as m) :: path :: _ -> D_satobj.run m path argv
+  | _ :: "dynspec" :: path :: _ -> D_dynspec.run path
+  | _ :: "dynamic" :: path :: _ -> D_dynamic.run path
   | _ -> prerr_endline "usage: driver <mode> <cases-file> [--thr N]"; exit 2
